@@ -26,8 +26,11 @@ def evaluate(t, lookup=None):
         v = evaluate(t[2], lookup)
         if t[1] == "-":
             return -v
+        if -(1 << 32) < v < 0:
+            # whichever of 8/16/32 bits is taken to "hold" a negative v, its complement is -v-1 (it fits in the bits of |v|)
+            return -v - 1
         if v < 0 or v >= 1 << 32:
-            raise Undefined("~ of negative or >32-bit value")
+            raise Undefined("~ of a value beyond 32 bits")
         bits = 8 if v < 1 << 8 else 16 if v < 1 << 16 else 32
         return (~v) & ((1 << bits) - 1)
     a = evaluate(t[2], lookup)
